@@ -147,7 +147,8 @@ def correspond(ctx):
     # ------------------------------------------------------------------ adaptive_minmax
     for method in ('modpoly', 'imodpoly'):
         for po in (None, 2, (1, 3)):
-            for cf, cw in ((0.01, 1e5), (0.1, 50.0), ((0.05, 0.2), (10.0, 20.0)), (0.0, 1e5), (1.0, 2.0)):
+            for cf, cw in ((0.01, 1e5), (0.1, 50.0), ((0.05, 0.2), (10.0, 20.0)), (0.0, 1e5), (1.0, 2.0), ((0.08, 0.0), 1e4), ((0.0, 0.06), (5.0, 1e4)),
+                           ((0.0, 0.0), 1e5)):
                 for iface in ('class', 'func'):
                     okind = orders[int(rng.integers(0, 3))] if iface == 'class' else ['rotated', 'shuffled'][int(rng.integers(0, 2))]
                     if not ctx.thorough and rng.random() < 0.5:
